@@ -1,9 +1,10 @@
 import Driver.AsmFam
 import Driver.VmFam
+import Driver.TypesFam
 
 open Driver
 
-def families : List (String → Option (Parser String)) := [asmFamily, vmFamily]
+def families : List (String → Option (Parser String)) := [asmFamily, vmFamily, typesFamily]
 
 def step (line : String) : String :=
   match line.trimAscii.toString.splitOn " " with
